@@ -43,6 +43,14 @@ def pre_top(case, i):
     return case["hist"][i - 1]["top"]
 
 
+def _pick_ops(e):
+    if not isinstance(e, list):
+        return False
+    if e and e[0] == "b" and e[1] in ("maximum", "minimum", "fmax", "fmin"):
+        return True
+    return any(_pick_ops(x) for x in e if isinstance(x, list))
+
+
 def explain_dev(case, backend, i):
     """name of the deviation model that applies at step i for this backend (naming only;
     whether it explains the observed result is decided by comparing with the model's table)"""
@@ -61,14 +69,16 @@ def explain_dev(case, backend, i):
             return "pandas_null_cmp_false"
         if op == "join":
             return "pandas_null_keys_match"
-    if backend == "polars":
-        if op in ("extend", "select_rows"):
-            return "polars_null_cmp_false"
+    if backend in ("polars", "polars_lazy"):
+        if op == "extend":
+            return "polars_maxmin_ignore_null"
         if op == "join":
             return "polars_full_join_right_key_lost"
-    if backend == "sqlite":
+    if backend in ("sqlite", "pg"):
+        if op == "extend":
+            return "sql_maxmin_swapped"
         if op == "join":
-            return "sqlite_full_join_null_key"
+            return "sqlite_full_join_emulation"
     return "%s_%s" % (backend, op)
 
 
